@@ -547,6 +547,56 @@ theorem set_units_compat (o : Obj) (u c : U) (hok : o.unitsOk = true) (hc : o.un
     (o.setUnits (some u) = .error .valueError ↔ u.exps ≠ c.exps) := by
   by_cases he : u.exps = c.exps <;> simp [Obj.setUnits, hok, hc, canMatch, he]
 
+/-! #### unit changes reach the cached derivative-free view -/
+
+/-- the cache, when filled, holds the view of the object as it is now -/
+def CObj.Coherent (c : CObj) : Prop := ∀ w, c.wodCache = some w → w = ⟨c.obj.vals, c.obj.units⟩
+
+theorem CObj.wod_spec (c : CObj) (h : c.Coherent) :
+    c.wod.1 = ⟨c.obj.vals, c.obj.units⟩ ∧ c.wod.2.Coherent ∧ c.wod.2.obj = c.obj := by
+  unfold CObj.wod
+  by_cases hd : c.obj.derivs.isEmpty = true
+  · simp only [hd, if_true]; exact ⟨trivial, h, trivial⟩
+  · simp only [hd, Bool.false_eq_true, if_false]
+    cases hc : c.wodCache with
+    | some w => exact ⟨h w hc, h, rfl⟩
+    | none =>
+      refine ⟨rfl, ?_, rfl⟩
+      intro w hw
+      simp only [Option.some.injEq] at hw
+      exact hw.symm
+
+theorem CObj.touches_spec : ∀ (n : Nat) (c : CObj), c.Coherent →
+    (CObj.touches n c).Coherent ∧ (CObj.touches n c).obj = c.obj
+  | 0, _, h => ⟨h, rfl⟩
+  | n + 1, c, h => by
+    obtain ⟨_, h2, h3⟩ := CObj.wod_spec c h
+    obtain ⟨i1, i2⟩ := CObj.touches_spec n c.touch h2
+    exact ⟨i1, by show (CObj.touches n c.touch).obj = c.obj; rw [i2]; exact h3⟩
+
+/-- `set_units` after any number of uses of the cached view: the object AND its `.wod` carry the new units,
+    stored values untouched (this is what `self._cache_.clear()` in `set_units` is for) -/
+theorem set_units_reaches_wod (n : Nat) (o : Obj) (u : Option U) (c' : CObj)
+    (h : (CObj.touches n ⟨o, none⟩).setUnits u = .ok c') :
+    c'.obj.units = u ∧ c'.wod.1.units = u ∧ c'.obj.vals = o.vals ∧ c'.wod.1.vals = o.vals ∧
+    c'.obj.derivs = o.derivs := by
+  have h0 : (⟨o, none⟩ : CObj).Coherent := by intro w hw; cases hw
+  obtain ⟨_, hobj⟩ := CObj.touches_spec n ⟨o, none⟩ h0
+  unfold CObj.setUnits at h
+  rw [hobj] at h
+  cases hs : o.setUnits u with
+  | error e => simp [hs] at h
+  | ok o' =>
+    simp only [hs] at h
+    injection h with h
+    subst h
+    obtain ⟨f1, f2, f3⟩ := set_units_frame o o' u hs
+    have hc : (⟨o', none⟩ : CObj).Coherent := by intro w hw; cases hw
+    obtain ⟨w1, _, _⟩ := CObj.wod_spec ⟨o', none⟩ hc
+    refine ⟨f3, ?_, f1, ?_, f2⟩
+    · rw [w1]; exact f3
+    · rw [w1]; exact f1
+
 /-! #### the units rule of object operations -/
 
 /-- the dimension bookkeeping the property asks for: exponents add, factors multiply, π exponents add -/
